@@ -1,6 +1,6 @@
 #!/bin/bash
 # quick look: weave + verus + condensed errors
-cd /verif && python3 bin/weave.py $1 ${2:-off} >/dev/null || exit 2
+cd "$(dirname "$0")/.." && python3 bin/weave.py $1 ${2:-off} >/dev/null || exit 2
 verus build/woven/$1_${2:-off}.rs --error-format=json --multiple-errors 10 2>&1 | python3 -c "
 import json,sys
 n=0
